@@ -92,6 +92,11 @@ func (c *RawHTTPResponder) Write(status int, body io.Reader) (written int64, err
 	resp.Body = io.NopCloser(countingreader.New(body, &read))
 	resp.StatusCode = status
 	c.parseAndSetContentLength()
+	if body == http.NoBody {
+		// A head without a body to follow (the answer to HEAD): tell the writer, or it frames the
+		// missing body, and a chunk terminator after the header block is read as the next response.
+		resp.Request = &http.Request{Method: http.MethodHead}
+	}
 
 	return int64(read), c.writeResponse()
 }
